@@ -40,6 +40,9 @@ type TStep struct {
 	Tie  bool   `json:"tie,omitempty"` // ConnectionBind: sent at the very instant the 30 s bind deadline passes
 	// Connect / CreatePermission: the IPv4 peer is named in its IPv4-mapped, family IPv6 spelling
 	Mapped bool `json:"mapped,omitempty"`
+	// Connect: the server's random source repeats itself - the connection id it draws is the one
+	// it drew last (a one-in-2^32 coincidence, on demand)
+	Dup bool `json:"dup_random,omitempty"`
 }
 
 // TScript is a TCP-world case.
@@ -67,15 +70,15 @@ type tConn struct {
 	peerEnd      *sim.Conn // the peer's end (harness side)
 	dataEnd      *sim.Conn // client's data connection (harness side), once bound
 	gone         bool
-	foreignTried bool   // a client or user other than the owner attempted to bind this id
-	orphan       bool   // registered after its allocation was already gone (slow dial): lives until its own bind deadline
+	foreignTried bool // a client or user other than the owner attempted to bind this id
+	orphan       bool // registered after its allocation was already gone (slow dial): lives until its own bind deadline
 	// limbo: the owner sent a valid ConnectionBind and hung up without waiting for the answer -
 	// bound or not, the peer connection must be gone when the bind deadline has passed
-	limbo bool
-	toPeer       []byte // bytes the client wrote after binding
-	toClient     []byte
-	gotPeer      []byte
-	gotClient    []byte
+	limbo     bool
+	toPeer    []byte // bytes the client wrote after binding
+	toClient  []byte
+	gotPeer   []byte
+	gotClient []byte
 }
 
 type tAlloc struct {
@@ -104,22 +107,23 @@ type tClient struct {
 
 // TWorld is the TCP-relay world.
 type TWorld struct {
-	cfg     TConfig
-	net     *sim.Net
-	log     *sim.Logger
-	srv     *turn.Server
-	lis     *sim.Listener
-	gen     *simGen
-	clients []*tClient
-	peers   []*sim.Listener
-	mgrs    []*allocation.Manager
-	evMu    sync.Mutex
-	events  []Event
-	seenIDs map[uint32]bool
-	stepNo  int
-	trace   []string
-	dport   int
-	gone    []*tAlloc
+	cfg        TConfig
+	net        *sim.Net
+	log        *sim.Logger
+	srv        *turn.Server
+	lis        *sim.Listener
+	gen        *simGen
+	clients    []*tClient
+	peers      []*sim.Listener
+	mgrs       []*allocation.Manager
+	evMu       sync.Mutex
+	events     []Event
+	tombstones int
+	seenIDs    map[uint32]bool
+	stepNo     int
+	trace      []string
+	dport      int
+	gone       []*tAlloc
 }
 
 // TExec runs a TScript.
